@@ -462,6 +462,18 @@ pub fn gen_rawlib(src: &mut Src, o: &RawGenOpts) -> RLib {
                 let y = *src.pick(&[2_000_000_000i64, -2_000_000_100]);
                 shapes.push(RShape { layer: src.index(layers.len()), purpose: 0, geom: RGeom::Rect((-2_100_000_000, y), (2_100_000_000, y + 10)), net: None });
             }
+            // the very corners of the 32-bit range: a triangle, a path and (below) an instance whose coordinates
+            // are the smallest / largest numbers GDSII can hold
+            if src.prob(1, 12) {
+                const LO: i64 = i32::MIN as i64;
+                const HI: i64 = i32::MAX as i64;
+                let layer = src.index(layers.len());
+                match src.below(3) {
+                    0 => shapes.push(RShape { layer, purpose: 0, geom: RGeom::Poly(vec![(LO, LO), (LO + 7, LO), (LO, LO + 9)]), net: None }),
+                    1 => shapes.push(RShape { layer, purpose: 0, geom: RGeom::Poly(vec![(HI, HI), (HI - 7, HI), (HI - 7, HI - 4), (HI, HI - 9)]), net: None }),
+                    _ => shapes.push(RShape { layer, purpose: 0, geom: RGeom::Path(vec![(LO, HI), (LO, HI - 20), (LO + 30, HI - 20)], 0), net: None }),
+                }
+            }
             // instances of earlier cells that have a layout
             let targets: Vec<usize> = (0..ci).filter(|i| cells[*i].has_layout || o.instances_of_abstracts).collect();
             if !targets.is_empty() {
@@ -469,6 +481,10 @@ pub fn gen_rawlib(src: &mut Src, o: &RawGenOpts) -> RLib {
                 for k in 0..ni {
                     let t = if src.bool() { *targets.last().unwrap() } else { targets[src.index(targets.len())] };
                     insts.push(RInst { name: gen_inst_name(src, k), target: t, loc: (src.signed(5000), src.signed(5000)), o: Orient::from_index(src.index(8)), none_angle: src.bool(), turns: gen_turns(src) });
+                }
+                if !insts.is_empty() && src.prob(1, 12) {
+                    let k = src.index(insts.len());
+                    insts[k].loc = *src.pick(&[(i32::MIN as i64, i32::MAX as i64), (i32::MAX as i64, i32::MIN as i64), (i32::MIN as i64, 0)]);
                 }
                 // coincidences: an instance repeated verbatim; two instances sharing their location, or their
                 // location with x and y exchanged
